@@ -1,15 +1,37 @@
 (* C09  Tokens partition the source text exactly.
-   Proved here: the generated symbol / look-ahead / keyword tables produce every fixed token from
-   exactly its own text, and the tokenizer model never reaches the second pass's panic. The
-   partition statement itself (`tokenize gend cs = Ok ts -> partition_ok cs ts = true`) is evaluated
-   as the executable oracle `partition_ok` on the IMPLEMENTATION's tokens for every generated input;
-   it is stated below as C09_partition_statement and is not yet a theorem (named partial in DESIGN). *)
+   Proved here, for every text (a list of characters with positive widths whose ASCII members carry
+   the ASCII classes) and every grapheme oracle: if the tokenizer model returns tokens, they partition
+   the text - in source order, disjoint, on character boundaries, each range containing exactly the
+   token's own text, only whitespace and comments in between, identifiers / numbers / two-character
+   symbols matched maximally, keywords only as whole words, literals with their exact decimal value
+   (C09_tokenize_partition; `partition_ok` is the walker of Spec/TokenSpec.v). Also: the generated
+   tables produce every fixed token from its own text, the model never reaches the second pass's
+   panic. The same `partition_ok` is run on the IMPLEMENTATION's tokens for every generated input. *)
 From Coq Require Import List ZArith NArith Bool.
 Import ListNotations.
-Require Import Gram.Model.Token Gram.Gen.TokenTables Gram.Model.Tokenizer Gram.Spec.TokenSpec Gram.Proofs.TokenizerProofs.
+Require Import Gram.Model.Token Gram.Gen.TokenTables Gram.Model.Tokenizer Gram.Spec.TokenSpec Gram.Proofs.TokenizerProofs Gram.Proofs.PartitionProofs.
 
-Definition C09_partition_statement : Prop :=
-  forall gend cs ts, tokenize gend cs = Ok ts -> partition_ok cs ts = true.
+Theorem C09_tokenize_partition : forall gend cs ts,
+  Forall ch_wf cs -> tokenize gend cs = Ok ts -> partition_ok cs ts = true.
+Proof. exact tokenize_partition. Qed.
+Check C09_tokenize_partition : forall gend cs ts,
+  Forall ch_wf cs -> tokenize gend cs = Ok ts -> partition_ok cs ts = true.
+Print Assumptions C09_tokenize_partition.
+
+Theorem C09_partition_obligations :
+  forallb symbol_entry_ok symbol_table = true /\ forallb pair_entry_ok pair_table = true /\
+  amax KLineBreak = true /\ lexeme_of KLineBreak = Some [10%N].
+Proof. exact tables_partition_obligations. Qed.
+Check C09_partition_obligations :
+  forallb symbol_entry_ok symbol_table = true /\ forallb pair_entry_ok pair_table = true /\
+  amax KLineBreak = true /\ lexeme_of KLineBreak = Some [10%N].
+Print Assumptions C09_partition_obligations.
+
+(* the hypothesis is satisfiable: every ASCII character as the correspondence glue builds it is well formed *)
+Theorem C09_ascii_wf : forall n, (n < 128)%N -> ch_wf (asc n).
+Proof. exact asc_wf. Qed.
+Check C09_ascii_wf : forall n, (n < 128)%N -> ch_wf (asc n).
+Print Assumptions C09_ascii_wf.
 
 Theorem C09_tables_match_lexemes :
   forallb symbol_ok symbol_table = true /\ forallb pair_ok pair_table = true /\
